@@ -9,10 +9,35 @@ import os
 import vlib
 
 
-def run(ctx, sub, modules, theorems, rule):
+SKELETON_LEAN = os.path.join(vlib.LEAN, "Mtv", "Gen", "ClientSkeleton.lean")
+
+
+def regen_skeleton(ctx):
+    """gen_hook: the ordered statement skeleton of the client's send and receive paths (go/ast), from the
+    working tree the harness was built against. A failing extraction removes the generated file, so that the
+    proof build fails instead of silently using stale facts."""
+    exe = os.path.join(vlib.BUILD, "c09facts")
+    with vlib.Lock("go-c09facts"):
+        rc, out = vlib.run(["go", "build", "-o", exe, "./cmd/c09facts"], cwd=vlib.HARNESS,
+                           env=vlib.go_env(ctx.repo), timeout=600)
+        if rc == 0:
+            rc, out = vlib.run([exe, "-repo", ctx.repo, "-lean", SKELETON_LEAN], timeout=120)
+    ctx.obligation("c09facts: statement skeleton of sendPacket, writeRPCResponse, makeRequest, processResponse, "
+                   "dispatchResponse extracted from %s (go/parser)" % ctx.repo, rc == 0, out[-600:])
+    if rc != 0:
+        try:
+            os.remove(SKELETON_LEAN)
+        except OSError:
+            pass
+    return rc == 0
+
+
+def run(ctx, sub, modules, theorems, rule, gen_hook=None):
     if not ctx.build_harness():
         ctx.report_unexplained("go build of the harness against the working tree", ctx.obligations[-1][2][-800:])
         return ctx.finish(rule=rule)
+    if gen_hook is not None:
+        gen_hook(ctx)
     ok = ctx.lean_check(modules, theorems)
     broken = [o for o in ctx.obligations if not o[1]]
     # stage 1 (corpus first)
